@@ -55,6 +55,22 @@ def quote(n, force=False):
     return "|%s|" % n
 
 
+def string_literal_body(v):
+    """SMT-LIB 2.6 Strings theory: literals hold printable ASCII; `""` is the quote; everything else, and a backslash
+    that would start an escape sequence, is written as \\u{X}."""
+    out = []
+    for i, ch in enumerate(v):
+        if ch == '"':
+            out.append('""')
+        elif ch == "\\" and v[i + 1:i + 2] == "u":
+            out.append("\\u{5c}")
+        elif 0x20 <= ord(ch) <= 0x7E:
+            out.append(ch)
+        else:
+            out.append("\\u{%x}" % ord(ch))
+    return "".join(out)
+
+
 class Writer(object):
     def __init__(self, rnd, numerals_are_real=False, variation=True, tags=None):
         self.rnd = rnd
@@ -128,7 +144,22 @@ class Writer(object):
                 return "(- %s)" % s
             return s
         if ty == STRING:
-            return '"%s"' % v.replace('"', '""')
+            if self.var and v and self.pct(30):
+                # any character may be written with one of the escape forms: \\u{X} (1-5 digits), \\uXXXX
+                out = []
+                for i, ch in enumerate(v):
+                    o = ord(ch)
+                    plain = ch != '"' and 0x20 <= o <= 0x7E and not (ch == "\\" and v[i + 1:i + 2] == "u")
+                    if plain and not self.pct(40):
+                        out.append(ch)
+                    else:
+                        forms = ["\\u{%x}" % o, "\\u{%X}" % o]
+                        if o <= 0xFFFF:
+                            forms += ["\\u%04x" % o, "\\u{%05x}" % o, "\\u%04X" % o]
+                        out.append(self.rnd.choice(forms))
+                self.tags.add("string-escape")
+                return '"%s"' % "".join(out)
+            return '"%s"' % string_literal_body(v)
         if is_bv(ty):
             w = ty[1]
             k = self.rnd.randrange(3) if self.var else 0
